@@ -1166,4 +1166,34 @@ theorem C18_seed_zero_counterexample :
   simp [this]
 
 
+/-! ## the parameter map is applied once per model name -/
+
+/-- every model name is looked up once in the map, by its own name; names produced by the map are
+    never looked up again (so exchanged or chained names are fine) -/
+theorem C18_param_map_once (pm : List (String × String)) (modelNames : List String) (j : Nat)
+    (hj : j < modelNames.length) :
+    (modelNames.map (mapName pm))[j]? = some ((pm.lookup modelNames[j]).getD modelNames[j]) := by
+  simp [mapName, hj]
+
+/-- an injective map keeps the parameters apart: distinct model parameters read distinct dataset
+    variables -/
+theorem C18_param_map_distinct (pm : List (String × String)) (modelNames : List String)
+    (hn : modelNames.Nodup)
+    (hinj : ∀ a ∈ modelNames, ∀ b ∈ modelNames, mapName pm a = mapName pm b → a = b) :
+    (modelNames.map (mapName pm)).Nodup :=
+  hn.map_on hinj
+
+/-- exchanged names `A ↦ B, B ↦ A` (a posterior inferred under another naming convention): the code
+    as it is reads B's column for A and A's column for B; rewriting the list entry by entry collapses
+    both parameters onto one variable -/
+theorem C18_param_map_exchange_counterexample :
+    let pm := [("A", "B"), ("B", "A")]
+    ["A", "B", "C"].map (mapName pm) = ["B", "A", "C"] ∧
+    mapNamesSequential pm ["A", "B", "C"] = ["A", "A", "C"] ∧
+    mapNamesSequential [("A", "B"), ("B", "C")] ["A", "B", "C"] = ["C", "C", "C"] ∧
+    (∃ ds, formatChains ["A", "B", "C"] ["A", "B", "C"] 0 = .ok ds ∧
+      readback ds [] ["A", "B", "C"] pm none = .ok [1, 0, 2]) := by
+  refine ⟨by decide, by decide, by decide, _, rfl, by decide⟩
+
+
 end ChiModel.Inference
